@@ -8,7 +8,8 @@
    error rather than a guess."
 
    [resolve_fuel lookup ast ffacts fuel cfg root] is the transcription of ModResolver + format_project's filter
-   (Model.v); [Reach] is the inductive closure of the language's one-step rules with the documented fallback,
+   (Model.v) as they are NOW ([resolve_fuel_pre]: before the repair of insert_sub_mod, commit 0b20f11; every proof
+   of Lemmas.v is generic in that flag); [Reach] is the inductive closure of the language's one-step rules with the documented fallback,
    [Excluded] the exclusions (a file is also excluded when it is only reachable through skipped modules).
    The code and the rules DISAGREE on several shapes: each has a _refuted theorem below with a concrete tree,
    and the positive theorems assume [Tame], the conjunction of the hypotheses that exclude exactly these shapes
@@ -22,7 +23,7 @@ Theorem resolve_sound_complete :
          (fuel : nat) (cfg : config) (root : path) (S : list path),
     Tame lookup ast ffacts root -> resolve_fuel lookup ast ffacts fuel cfg root = Ok S ->
     forall p, In p S <-> (Reach lookup ast ffacts root p /\ ~ Excluded lookup ast ffacts cfg root p).
-Proof. exact resolve_sound_complete_lemma. Qed.
+Proof. exact (resolve_sound_complete_lemma true). Qed.
 Print Assumptions resolve_sound_complete.
 
 (* "each such file is formatted once": no path occurs twice in the result (unconditional; on LITERAL paths,
@@ -59,7 +60,7 @@ Theorem decoys_untouched :
   forall lookup ast ffacts fuel cfg root S,
     Tame lookup ast ffacts root -> resolve_fuel lookup ast ffacts fuel cfg root = Ok S ->
     forall p, ~ Reach lookup ast ffacts root p -> ~ In p S.
-Proof. exact decoys_untouched_lemma. Qed.
+Proof. exact (decoys_untouched_lemma true). Qed.
 Print Assumptions decoys_untouched.
 
 (* "any child when skip_children is set" (unconditional) *)
@@ -67,14 +68,14 @@ Theorem skip_children_only_root :
   forall lookup ast ffacts fuel cfg root S,
     skip_children cfg = true -> resolve_fuel lookup ast ffacts fuel cfg root = Ok S ->
     forall p, In p S -> p = root.
-Proof. exact skip_children_only_root_lemma. Qed.
+Proof. exact (skip_children_only_root_lemma true). Qed.
 Print Assumptions skip_children_only_root.
 
 (* "or the input is standard input" (unconditional) *)
 Theorem stdin_only_root :
   forall lookup ast ffacts fuel cfg root S,
     input_is_stdin cfg = true -> resolve_fuel lookup ast ffacts fuel cfg root = Ok S -> S = [root].
-Proof. exact stdin_only_root_lemma. Qed.
+Proof. exact (stdin_only_root_lemma true). Qed.
 Print Assumptions stdin_only_root.
 
 (* termination: when the lookup answers File for finitely many literal paths, the already-parsed check bounds
@@ -84,7 +85,7 @@ Theorem resolve_fuel_enough :
     (forall p id, lookup p = Some (File id) -> In p files) ->
     forall fuel cfg root, (length files <= fuel)%nat ->
     resolve_fuel lookup ast ffacts fuel cfg root <> Err OutOfFuel.
-Proof. exact resolve_fuel_enough_lemma. Qed.
+Proof. exact (fun lookup ast ffacts => resolve_fuel_enough_lemma lookup ast ffacts true). Qed.
 Print Assumptions resolve_fuel_enough.
 
 (* the hypotheses are decidable on a concrete tree, from the closed node list of the pruned closure *)
@@ -105,13 +106,21 @@ Theorem formatted_once_refuted : exists (w : world) S p q id,
 Proof. exact formatted_once_refuted_lemma. Qed.
 Print Assumptions formatted_once_refuted.
 
-(* "except files that are skipped" is false: a file starting with #![rustfmt::skip], named by two
-   cfg_attr(path) declarations, is handed to the formatter (with the module of the declaration) *)
+(* "except files that are skipped" was false of the code BEFORE the repair of insert_sub_mod (resolve_fuel_pre,
+   commit 0b20f11): a file starting with #![rustfmt::skip], named by two cfg_attr(path) declarations, was
+   handed to the formatter with the module of the declaration (the declaring file's text was written to it) *)
 Theorem skipped_file_excluded_refuted : exists (w : world) S p id,
-  w_resolve w cfg0 = Ok S /\ In p S /\ w_lookup w p = Some (File id) /\ inner_skip (w_ff w id) = true /\
+  w_resolve_pre w cfg0 = Ok S /\ In p S /\ w_lookup w p = Some (File id) /\ inner_skip (w_ff w id) = true /\
   w_Excluded w cfg0 p.
 Proof. exact skipped_file_excluded_refuted_lemma. Qed.
 Print Assumptions skipped_file_excluded_refuted.
+
+(* on that tree the current code formats the same files except the skipped one *)
+Theorem skipped_file_excluded_repaired : exists (w : world) S' S p,
+  w_resolve_pre w cfg0 = Ok S' /\ In p S' /\ w_Excluded w cfg0 p /\
+  w_resolve w cfg0 = Ok S /\ ~ In p S /\ (forall q, In q S' -> q <> p -> In q S).
+Proof. exact skipped_file_excluded_repaired_lemma. Qed.
+Print Assumptions skipped_file_excluded_repaired.
 
 (* decoys_untouched and "error rather than a guess" are false without Tame: the exists() heuristic of
    push_inline_mod_directory formats a file the language does not reach, where the language reports a missing
